@@ -237,8 +237,8 @@ def run(ctx):
     ctx.case(("known-probe", "cpp-event-named-Event"))
     if fail:
         ctx.violation(fail, {"table": ev_table, "iface": {"structs": [], "usertags": {}}, "ns": "NS", "dll": "", "finding_key": "cpp-event-named-Event"})
-    n = ctx.budget(250, 4000)
-    every = 5 if ctx.quick and not ctx.broken else 2
+    n = ctx.budget(250, 1500)
+    every = 5 if ctx.quick and not ctx.broken else 3
     for i in range(n):
         table, spec, ns, dll = gen_case(ctx.rng, i)
         compile_it = (i % every == 0)
